@@ -12,7 +12,7 @@ import (
 	"verif/harness/internal/hist"
 	"verif/harness/internal/model"
 	"verif/harness/internal/ops"
-	"verif/harness/internal/vt"
+	"verif/harness/vt"
 )
 
 func TestMain(m *testing.M) { vt.Main(m) }
